@@ -1,6 +1,7 @@
 import XmppModel.Prelude.Hex
 import XmppModel.Model.Ibb
 import XmppModel.Model.IbbReader
+import XmppModel.Model.IbbReaders
 import XmppModel.Model.IbbSend
 import XmppModel.Model.IbbClose
 /-! Driver module for C15.
@@ -104,6 +105,24 @@ def lsnRun : LState → List String → Option (List String)
     let rest ← lsnRun o.st ts
     pure ((base ++ suffix) :: rest)
 
+/-- `C15 readers <k> <events>`: k goroutines are parked in `Read` on an empty stream (each between
+its empty check and its wait), then the events happen (`,`-joined: P<n> a packet of n bytes, C a
+close by either side), then the readers run until none of them can move.
+answer: `returned=<r> delivered=<bytes> eofs=<m>` -/
+def readersExhaust (k : Nat) : Nat → IbbReaders.St → IbbReaders.St
+  | 0, s => s
+  | fuel + 1, s =>
+    let acts := (List.range k).flatMap fun i => [IbbReaders.Act.enterWait i, .wake i, .recheck i]
+    match acts.findSome? (fun a => IbbReaders.step true s a) with
+    | some s' => readersExhaust k fuel s'
+    | none => s
+
+def readersEvent (s : IbbReaders.St) (t : String) : Option IbbReaders.St :=
+  match t.toList with
+  | ['C'] => IbbReaders.step true s .close
+  | 'P' :: r => do let n ← (String.ofList r).toNat?; IbbReaders.step true s (.packet n)
+  | _ => none
+
 def handle (args : List String) : Option String :=
   match args with
   | ["recv", maxbuf, ops] => do
@@ -118,6 +137,13 @@ def handle (args : List String) : Option String :=
     let b ← bs.toNat?
     let os ← mapM? parseSOp (splitList ops)
     pure (joinList ((mkPackets 0 (srun (sinit b) os).chunks).map showPacket))
+  | ["readers", k, events] => do
+    let k ← k.toNat?
+    let s0 ← (List.range k).foldlM (fun s i => IbbReaders.step true s (.readStart i)) ({} : IbbReaders.St)
+    let s1 ← (splitList events).foldlM readersEvent s0
+    let s := readersExhaust k (8 * k + 8) s1
+    let returned := ((List.range k).filter fun i => s.rpc i == .idle).length
+    pure s!"returned={returned} delivered={s.delivered} eofs={s.eofs}"
   | ["lsn", ops] => (lsnRun {} (splitList ops)).map joinList
   | ["close", fault] =>
     -- C15 close <none|flush|send|reply|deadline>: Close with a fault at that step, then Read and a
